@@ -470,7 +470,10 @@ class ParserText(ParserBase):
         try:
             value = self._parsable[self._parsed_length:]
             date_time = dateutil.parser.parse(six.ensure_text(value, self._encoding))
-            date_time.utcoffset()  # an offset of 24 hours or more is accepted by dateutil but unusable
+            if date_time.tzinfo is not None:
+                # an offset of 24 hours or more is accepted by dateutil but unusable (ValueError); the value kept
+                # is the instant, in UTC, so that equal instants are equal objects with equal renderings
+                date_time = date_time.astimezone(dateutil.tz.UTC)
         except (ValueError, OverflowError) as e:
             six.raise_from(InvalidValue(value, type(self), 'value'), e)
 
